@@ -652,7 +652,93 @@ const PATTERNS: &[(&str, &str)] = &[
     ("a", "equal"),
 ];
 
+/// for every word of the output alphabet: expectation texts that match a line made of it
+const ALIGNED: &[(&str, &[&str])] = &[
+    ("a", &["a", "a* (glob)", "* (glob)", "? (glob)", "a|b (regex)", ".* (regex)", "a.? (regex)", "[ab]+ (regex)", "a (equal)"]),
+    ("b", &["b", "* (glob)", "? (glob)", "*b (glob)", "a|b (regex)", ".* (regex)", "[ab]+ (regex)"]),
+    ("ab", &["ab", "a* (glob)", "* (glob)", "?? (glob)", "*b (glob)", ".* (regex)", "a.? (regex)", "[ab]+ (regex)"]),
+    ("", &["", "* (glob)", ".* (regex)"]),
+    ("a b", &["a b", "a* (glob)", "* (glob)", "*b (glob)", ".* (regex)", "a\\x20b (escaped)"]),
+    ("é", &["é", "* (glob)", "? (glob)", ".* (regex)", "\\xc3\\xa9 (escaped)"]),
+    ("ba", &["ba", "* (glob)", "?? (glob)", ".* (regex)", "[ab]+ (regex)"]),
+    ("aa", &["aa", "a* (glob)", "* (glob)", "?? (glob)", ".* (regex)", "a.? (regex)", "[ab]+ (regex)"]),
+];
+
+/// insert a quantifier into an expectation text (`x` -> `x (?)`, `x (glob)` -> `x (glob?)`)
+fn with_quantifier(text: &str, q: u8) -> String {
+    let qs = quant_str(q);
+    if qs.is_empty() {
+        return text.to_string();
+    }
+    match text.strip_suffix(')') {
+        Some(t) if t.contains(" (") => format!("{t}{qs})"),
+        _ => format!("{text} ({qs})"),
+    }
+}
+
+/// aligned family: an expectation list that is built to accept the output (every output line gets
+/// one matching expectation with a random quantifier, multiline ones may swallow the next equal
+/// line, optional non-matching expectations are sprinkled in), then at most one mutation
+fn aligned_strategy() -> BoxedStrategy<RealCase> {
+    (
+        vec((any::<u16>(), any::<u16>(), 0u8..4, proptest::bool::weighted(0.25)), 0..7),
+        proptest::option::weighted(0.3, (any::<u16>(), 0u8..3)),
+        proptest::bool::weighted(0.85),
+        any::<bool>(),
+    )
+        .prop_map(|(items, mutation, final_newline, cram)| {
+            let mut exps: Vec<String> = vec![];
+            let mut output: Vec<u8> = vec![];
+            for (w, p, q, extra_optional) in &items {
+                let (word, patterns) = ALIGNED[pick_idx(*w, ALIGNED.len())];
+                let pattern = patterns[pick_idx(*p, patterns.len())];
+                if *extra_optional {
+                    exps.push("zzz-not-there (?)".to_string());
+                }
+                exps.push(with_quantifier(pattern, *q));
+                // `?` / `*` may also stand for no line at all
+                let lines = match q {
+                    1 if p % 3 == 0 => 0,
+                    2 => (p % 3) as usize,
+                    3 => 1 + (p % 2) as usize,
+                    _ => 1,
+                };
+                for _ in 0..lines {
+                    output.extend_from_slice(word.as_bytes());
+                    output.push(b'\n');
+                }
+            }
+            if let Some((pos, kind)) = mutation {
+                match kind {
+                    0 if !exps.is_empty() => {
+                        exps.remove(pick_idx(pos, exps.len()));
+                    }
+                    1 => output.extend_from_slice(b"x\n"),
+                    _ => {
+                        let at = pick_idx(pos, exps.len() + 1);
+                        exps.insert(at, "b".to_string());
+                    }
+                }
+            }
+            if !final_newline && output.ends_with(b"\n") {
+                output.pop();
+                // the last expectation has to be no-eol aware: replace it by a glob (ignores the newline)
+                if let Some(last) = exps.last_mut() {
+                    if !last.contains(" (") {
+                        *last = format!("{last} (no-eol)");
+                    }
+                }
+            }
+            RealCase { exps, output, cram }
+        })
+        .boxed()
+}
+
 pub fn real_strategy() -> BoxedStrategy<RealCase> {
+    prop_oneof![1 => real_strategy_random(), 1 => aligned_strategy()].boxed()
+}
+
+fn real_strategy_random() -> BoxedStrategy<RealCase> {
     let exp = (any::<u16>(), 0u8..4, any::<bool>()).prop_map(|(p, q, _)| {
         let (text, kind) = PATTERNS[pick_idx(p, PATTERNS.len())];
         let qs = quant_str(q);
